@@ -781,6 +781,29 @@ def make_breaker(env: Env, spec: dict) -> SpyBreaker:
     return SpyBreaker(env, real)
 
 
+def apply_reconfigure(env: Env, spec: dict) -> None:
+    """The caller changes public configuration attributes of a policy object between two calls."""
+    from datetime import timedelta
+
+    t = env.target
+    if t is None:
+        raise HarnessError("this entry point exposes no policy object to reconfigure")
+    retry = t if isinstance(t, (Retry, AsyncRetry, RetryPolicy, AsyncRetryPolicy)) else getattr(t, "retry", None)
+    env.trace.append(("reconfigure", dict(spec)))
+    for k, val in spec.items():
+        if k == "deadline":
+            retry.deadline = timedelta(seconds=g(val))
+            env.deadline_ticks = val  # scripted "until deadline+d" durations refer to the deadline in force
+        elif k == "max_attempts":
+            retry.max_attempts = val
+        elif k == "max_unknown":
+            retry.max_unknown_attempts = val
+        elif k == "per_class":
+            retry.per_class_max_attempts = {ErrorClass[c]: n for c, n in val.items()}
+        else:
+            raise HarnessError(f"unknown reconfigure key {k!r}")
+
+
 def direct_breaker_op(env: Env, op: list) -> None:
     """Direct use of the shared breaker between policy calls (recorded as ('direct', ...) + brk events)."""
     b = env.breaker
@@ -1033,6 +1056,8 @@ def run_case(
                 env.clock.t += g(call["advance"])
             for op in call.get("pre_ops") or []:
                 direct_breaker_op(env, op)
+            if call.get("reconfigure"):
+                apply_reconfigure(env, call["reconfigure"])
             env.call_t0 = env.clock.t
             env.trace.append(("call_begin", j, env.now()))
             try:
